@@ -176,9 +176,21 @@ func runC03(r *core.Run) {
 		cols := []string{"id", "a", "b", "k"}
 		gens := []colGen{genID, genNum(3), genText, genInt(3)}
 		n := []int{0, 1, 2, 3, 6, 12, 40, 170, 330}[rng.Intn(9)]
+		// two shapes a uniform draw reaches too rarely get a fixed share of the cases: a FULL join on the row number of a table
+		// that is split over several workers, and a recursion over a chain behind a repeated first edge combined by UNION
+		forceFull, forceChain := c%20 == 7, c%11 == 5
+		if forceFull {
+			n = []int{170, 330}[rng.Intn(2)]
+		}
 		t := genTable(r, "t", cols, gens, n)
 		cpu := []int{1, 4, 8}[rng.Intn(3)]
-		switch kind := rng.Intn(13); {
+		kind := rng.Intn(13)
+		if forceFull {
+			kind, cpu = 6, []int{4, 8}[rng.Intn(2)]
+		} else if forceChain {
+			kind = 11
+		}
+		switch {
 		case kind == 10: // LATERAL: the sub-query is evaluated for every row of the left table, seeing that row
 			m := []int{0, 1, 3, 8, 25}[rng.Intn(5)]
 			u := genTable(r, "u", []string{"id", "a", "b", "k"}, gens, m)
@@ -241,7 +253,7 @@ func runC03(r *core.Run) {
 				csv.WriteString(cell(a) + "," + cell(b) + "\n")
 			}
 			k0 := 1 + rng.Intn(3)
-			if rng.Intn(3) == 0 {
+			if forceChain || rng.Intn(3) == 0 {
 				// a base result with duplicates in front of a chain: the first edge several times, then k0+1 -> k0+2 -> ..
 				// (what the first step adds is not more than what UNION removes from the base result)
 				var pre [][]int
@@ -266,7 +278,7 @@ func runC03(r *core.Run) {
 					csv.WriteString("\n")
 				}
 			}
-			all := rng.Intn(2) == 0
+			all := rng.Intn(2) == 0 && !forceChain
 			op := "UNION"
 			if all {
 				op = "UNION ALL"
@@ -423,11 +435,17 @@ func runC03(r *core.Run) {
 			if n > 170 {
 				m = []int{0, 2, 9}[rng.Intn(3)]
 			}
+			if forceFull {
+				m = []int{9, 14}[rng.Intn(2)]
+			}
 			if lim := 2500; !r.Thorough && n*m > lim {
 				m = lim / n
 			}
 			u := genTable(r, "u", []string{"id", "a", "b", "k"}, gens, m)
 			jk := []string{"cross", "inner", "left", "right", "full"}[rng.Intn(5)]
+			if forceFull {
+				jk = "full"
+			}
 			names := []string{"t.id", "t.a", "t.b", "t.k", "u.id", "u.a", "u.b", "u.k"}
 			kinds := []string{"int", "num", "text", "int", "int", "num", "text", "int"}
 			g := &condGen{r: r, names: names, kinds: kinds}
@@ -436,6 +454,9 @@ func runC03(r *core.Run) {
 			if jk != "cross" {
 				op := []string{"=", "=", "=", "<", ">="}[rng.Intn(5)]
 				col := []int{4, 2, 3, 1, 1}[rng.Intn(5)] // k, a, b or id (every row has its partner in one chunk of the other table only)
+				if forceFull {
+					op, col = "=", 1
+				}
 				on = cexpr{"k": "cmp", "op": op, "l": cexpr{"k": "col", "i": col}, "r": cexpr{"k": "col", "i": 4 + col}}
 				ons := names[col-1] + " " + op + " " + names[3+col]
 				if rng.Intn(3) == 0 {
